@@ -176,11 +176,13 @@ def envs_every_iteration(chk, facts):
     chk.ob(rule, "per-environment", not skipped,
            "every iteration over the request environments reaches check_expr_level unless its outcome is Fail: %s%s" % (not skipped, why),
            where=f.where(), fn=f.name, key="%s:per-environment" % rule)
-    # the iterated collection is what typecheck_by_request_env returned (all environments of the schema)
-    L = shape.Labels(f, None, None, call_labels=lambda c, t: ["ENVS"] if c.endswith("::typecheck_by_request_env") else None)
+    # the iterated collection is exactly what typecheck_by_request_env returned (no skip / filter / take in between)
     hb = f.blocks[head]["t"]
-    src = L.operand_labels(hb[2][0]) if hb[0] == "call" and hb[2] else set()
-    chk.ob(rule, "all-environments", "ENVS" in src, "the loop iterates the result of typecheck_by_request_env: %s" % ("ENVS" in src), where=f.where(), fn=f.name)
+    src = leaf_producers(f, hb[2][0], extra_transparent=("::into_iter", "::iter")) if hb[0] == "call" and hb[2] else set()
+    calls_ = sorted(x for x in src if x.startswith("call:"))
+    ok = len(calls_) == 1 and calls_[0].endswith("::typecheck_by_request_env")
+    chk.ob(rule, "all-environments", ok, "the loop iterates the result of typecheck_by_request_env itself: %s" % [short(x[5:]) for x in calls_], where=f.where(), fn=f.name,
+           key="%s:all-environments" % rule)
 
 
 from lib.slice import leaf_producers  # noqa: E402
